@@ -370,6 +370,7 @@ class Interp:
         self.consts = consts or {}
         self.kw_guards: List[Tuple[str, str]] = []  # (variable, 'exact'|'lower')
         self.post_guard_transform: List[str] = []
+        self.aliases: Dict[str, str] = {}
 
     def run(self) -> None:
         env: Dict[str, AVal] = {self.param: AStr.any()}
@@ -386,6 +387,10 @@ class Interp:
 
     def stmt(self, st: ast.stmt, env: Dict[str, AVal]) -> Optional[Dict[str, AVal]]:
         if isinstance(st, ast.Expr):
+            return env
+        if isinstance(st, ast.Assign) and len(st.targets) == 1 and isinstance(st.targets[0], ast.Name) and isinstance(st.value, ast.Attribute) \
+                and dotted(st.value) in ("keyword.iskeyword", "keyword.issoftkeyword"):
+            self.aliases[st.targets[0].id] = dotted(st.value) or ""  # `is_kw = keyword.iskeyword`
             return env
         if isinstance(st, ast.Assign) and len(st.targets) == 1 and isinstance(st.targets[0], ast.Name):
             v = self.ev(st.value, env)
@@ -429,7 +434,41 @@ class Interp:
             return out
         if isinstance(st, ast.Raise):
             return None
+        if isinstance(st, ast.For) and isinstance(st.target, ast.Name) and not st.orelse:
+            it = self.ev(st.iter, env)
+            if not isinstance(it, AList):
+                raise Unsupported(f"for over a non-list: {norm(st.iter)[:40]}")
+            # zero or more iterations: least fixpoint of  env := env JOIN body(env[target := element])
+            cur = dict(env)
+            for _ in range(6):
+                inner = dict(cur)
+                inner[st.target.id] = it.elem
+                after = self.block(st.body, inner)
+                if after is None:
+                    break
+                after = {k: v for k, v in after.items() if k != st.target.id or k in cur}
+                nxt = self._join_env(cur, after)
+                if nxt == cur:
+                    break
+                cur = nxt
+            return cur
         raise Unsupported(f"statement {type(st).__name__}: {norm(st)[:60]}")
+
+    @staticmethod
+    def _join_env(a: Dict[str, AVal], b: Dict[str, AVal]) -> Dict[str, AVal]:
+        out: Dict[str, AVal] = {}
+        for k in set(a) | set(b):
+            if k in a and k in b:
+                x, y = a[k], b[k]
+                if isinstance(x, AStr) and isinstance(y, AStr):
+                    out[k] = x.join(y)
+                elif isinstance(x, AList) and isinstance(y, AList):
+                    out[k] = x.join(y)
+                else:
+                    raise Unsupported(f"type confusion at join for {k}")
+            else:
+                out[k] = a.get(k, b.get(k))  # type: ignore[assignment]
+        return out
 
     # -- tests -------------------------------------------------------------
     def refine(self, test: ast.AST, env: Dict[str, AVal]) -> Tuple[Optional[Dict[str, AVal]], Optional[Dict[str, AVal]]]:
@@ -437,6 +476,14 @@ class Interp:
         if isinstance(test, ast.UnaryOp) and isinstance(test.op, ast.Not):
             t, f = self.refine(test.operand, env)
             return f, t
+        # emptiness tests in any spelling: `X == ""`, `len(X) == 0`, `len(X) > 0`, `X != ""` ... (normal form: truthiness of X)
+        from sa.match import truthiness as _truthiness
+
+        if not isinstance(test, ast.Name):
+            tv = _truthiness(test)
+            if tv is not None and isinstance(tv[0], ast.Name) and tv[0].id in env and not isinstance(test, ast.UnaryOp):
+                t, f = self.refine(tv[0], env)
+                return (t, f) if tv[1] else (f, t)
         # `X` (truthiness of a string / list variable)
         if isinstance(test, ast.Name) and test.id in env:
             v = env[test.id]
@@ -481,13 +528,15 @@ class Interp:
                 r = p.func.value
                 if isinstance(r, ast.Subscript) and isinstance(r.value, ast.Name) and isinstance(r.slice, ast.Constant) and r.slice.value == 0:
                     return r.value.id
+                if isinstance(r, ast.Subscript) and isinstance(r.value, ast.Name) and isinstance(r.slice, ast.Slice) and r.slice.lower is None and r.slice.step is None \
+                        and isinstance(r.slice.upper, ast.Constant) and r.slice.upper.value == 1:
+                    return r.value.id  # X[:1].isdigit(): false for the empty string, otherwise the first character
         return None
 
-    @staticmethod
-    def _kw_guard(test: ast.AST) -> Optional[Tuple[str, str]]:
+    def _kw_guard(self, test: ast.AST) -> Optional[Tuple[str, str]]:
         found: List[Tuple[str, str]] = []
         for n in ast.walk(test):
-            if isinstance(n, ast.Call) and dotted(n.func) == "keyword.iskeyword" and n.args:
+            if isinstance(n, ast.Call) and (dotted(n.func) == "keyword.iskeyword" or (isinstance(n.func, ast.Name) and self.aliases.get(n.func.id) == "keyword.iskeyword")) and n.args:
                 a = n.args[0]
                 if isinstance(a, ast.Name):
                     found.append((a.id, "exact"))
@@ -525,13 +574,13 @@ class Interp:
                 return t_concat(a, b)
             raise Unsupported(f"+ on {type(a).__name__}/{type(b).__name__}")
         if isinstance(e, ast.JoinedStr):
-            out = AStr.const("")
+            out: Optional[AStr] = None
             for v in e.values:
                 part = AStr.const(str(v.value)) if isinstance(v, ast.Constant) else self.ev(v.value, env)  # type: ignore[attr-defined]
                 if not isinstance(part, AStr):
                     raise Unsupported("list inside f-string")
-                out = t_concat(out, part)
-            return out
+                out = part if out is None else t_concat(out, part)  # f"{x}_" is exactly x + "_"
+            return out if out is not None else AStr.const("")
         if isinstance(e, ast.ListComp) or isinstance(e, ast.GeneratorExp):
             lst, nonempty = self._comp(e, env)
             return lst
